@@ -9,7 +9,6 @@ package json
 import (
 	"encoding"
 	"errors"
-	"io"
 	"reflect"
 
 	"github.com/go-json-experiment/json/internal"
@@ -318,8 +317,11 @@ func makeMethodArshaler(fncs *arshaler, t reflect.Type) *arshaler {
 			}
 			xd := export.Decoder(dec)
 			prevDepth, prevLength := xd.Tokens.DepthLength()
-			if prevDepth == 1 && xd.AtEOF() {
-				return io.EOF // check EOF early to avoid fn reporting an EOF
+			if prevDepth == 1 {
+				// Check EOF early to avoid fn reporting an EOF.
+				if err := xd.AtEOFOrError(); err != nil {
+					return err
+				}
 			}
 			withinOuterCall := xd.Flags.Get(jsonflags.WithinArshalCall)
 			xd.Flags.Set(jsonflags.WithinArshalCall | 1)
